@@ -16,6 +16,7 @@ import (
 	"fmt"
 	"io"
 	"net"
+	"net/http"
 	"os"
 	"path/filepath"
 	"runtime"
@@ -25,6 +26,7 @@ import (
 	"sync"
 	"time"
 
+	"github.com/cenkalti/rain/v2/internal/announcer"
 	"github.com/cenkalti/rain/v2/internal/logger"
 	"github.com/cenkalti/rain/v2/internal/peer"
 	"github.com/cenkalti/rain/v2/internal/peerconn/peerreader"
@@ -401,6 +403,71 @@ type verifPeer struct {
 	sents int
 }
 
+// verifTracker is an in-process HTTP tracker. It records every announce and can be told to hang.
+type verifTracker struct {
+	idx      int
+	ln       net.Listener
+	srv      *http.Server
+	mu       sync.Mutex
+	mode     string // ok | hang | hang-stopped
+	log      []string
+	inflight int
+	hung     int // requests currently parked because the tracker is told not to answer
+	release  chan struct{}
+	w        *VerifWorld
+}
+
+func (tr *verifTracker) url() string { return "http://" + tr.ln.Addr().String() + "/announce" }
+
+func (tr *verifTracker) ServeHTTP(rw http.ResponseWriter, req *http.Request) {
+	q := req.URL.Query()
+	ev := q.Get("event")
+	if ev == "" {
+		ev = "none"
+	}
+	pid := "other"
+	switch {
+	case strings.HasPrefix(q.Get("peer_id"), tr.w.sess.config.PrivatePeerIDPrefix):
+		pid = "priv"
+	case strings.HasPrefix(q.Get("peer_id"), publicPeerIDPrefix):
+		pid = "pub"
+	}
+	if q.Get("peer_id") != string(tr.w.t.peerID[:]) {
+		pid += "!mismatch"
+	}
+	ua := "pub"
+	if req.UserAgent() == tr.w.sess.config.TrackerHTTPPrivateUserAgent {
+		ua = "priv"
+	}
+	ih := "ok"
+	if q.Get("info_hash") != string(tr.w.t.infoHash[:]) {
+		ih = "bad"
+	}
+	tr.mu.Lock()
+	tr.log = append(tr.log, fmt.Sprintf("%d:%s:%s:%s:%s", tr.idx, ev, pid, ua, ih))
+	hang := tr.mode == "hang" || (tr.mode == "hang-stopped" && ev == "stopped")
+	rel := tr.release
+	tr.inflight++
+	tr.mu.Unlock()
+	if hang {
+		tr.mu.Lock()
+		tr.hung++
+		tr.mu.Unlock()
+		select {
+		case <-rel:
+		case <-req.Context().Done():
+		case <-time.After(20 * time.Second):
+		}
+		tr.mu.Lock()
+		tr.hung--
+		tr.mu.Unlock()
+	}
+	tr.mu.Lock()
+	tr.inflight--
+	tr.mu.Unlock()
+	rw.Write([]byte("d8:intervali1800e5:peers0:e")) // nolint
+}
+
 // VerifWorld is one scripted universe: a session with one torrent and scripted peers.
 type VerifWorld struct {
 	dir     string
@@ -427,6 +494,7 @@ type VerifWorld struct {
 	sinkAddr     *net.TCPAddr
 	sinkMu       sync.Mutex
 	sinkDials    int
+	trackers     []*verifTracker
 }
 
 func (w *VerifWorld) startSink() {
@@ -580,6 +648,23 @@ func VerifNewWorld(op string) (*VerifWorld, string) {
 	}
 	w.infoBytes = ib
 	meta := map[string]interface{}{"info": bencode.RawMessage(ib)}
+	for i := 0; i < verifAtoi(m["trackers"], 0); i++ {
+		ln, err := net.Listen("tcp4", "127.0.0.1:0")
+		if err != nil {
+			break
+		}
+		tr := &verifTracker{idx: i, ln: ln, mode: "ok", release: make(chan struct{}), w: w}
+		tr.srv = &http.Server{Handler: tr}
+		go tr.srv.Serve(ln) // nolint
+		w.trackers = append(w.trackers, tr)
+	}
+	if len(w.trackers) > 0 {
+		var al [][]string
+		for _, tr := range w.trackers {
+			al = append(al, []string{tr.url()})
+		}
+		meta["announce-list"] = al
+	}
 	tb, err := bencode.EncodeBytes(meta)
 	if err != nil {
 		return nil, "bad-op:" + err.Error()
@@ -609,6 +694,10 @@ func VerifNewWorld(op string) (*VerifWorld, string) {
 	}
 	cfg.PortEnd = cfg.PortBegin + 1
 	cfg.TrackerStopTimeout = 2 * time.Second
+	if verifAtoi(m["trackers"], 0) > 0 {
+		cfg.TrackerStopTimeout = 400 * time.Millisecond
+		cfg.BlocklistEnabledForTrackers = false
+	}
 	cfg.HealthCheckInterval = time.Hour
 	cfg.ResumeWriteInterval = time.Hour
 	cfg.RequestTimeout = time.Hour // snubs are injected, never timed
@@ -729,12 +818,31 @@ func (w *VerifWorld) Close() {
 	if w.sink != nil {
 		w.sink.Close()
 	}
+	for _, tr := range w.trackers {
+		tr.mu.Lock()
+		close(tr.release)
+		tr.release = make(chan struct{})
+		tr.mu.Unlock()
+		tr.srv.Close()
+	}
 	if w.dir != "" {
 		os.RemoveAll(w.dir)
 	}
 }
 
 var errVerifHang = errors.New("hang")
+
+func (w *VerifWorld) anyTrackerHanging() bool {
+	for _, tr := range w.trackers {
+		tr.mu.Lock()
+		h := tr.mode != "ok"
+		tr.mu.Unlock()
+		if h {
+			return true
+		}
+	}
+	return false
+}
 
 // autoRelease opens the open/read gates after a command that makes the loop wait for the allocator or
 // verifier goroutine (stop() calls Allocator.Close / Verifier.Close, which block until the worker's
@@ -819,8 +927,30 @@ func (w *VerifWorld) settle() error {
 		if t.pieceMessagesC.VerifSuspended() && bw == 0 {
 			busy = true
 		}
-		if t.stoppedEventAnnouncer != nil && len(t.trackers) == 0 {
+		hungTotal := 0
+		for _, tr := range w.trackers {
+			tr.mu.Lock()
+			if tr.inflight > tr.hung {
+				busy = true // a request is being answered right now
+			}
+			hungTotal += tr.hung
+			tr.mu.Unlock()
+		}
+		// the stop announcer is quiescent only when it is really waiting for a tracker that does not answer
+		if t.stoppedEventAnnouncer != nil && hungTotal == 0 {
 			busy = true
+		}
+		for i, an := range t.announcers {
+			st := an.Stats().Status
+			hung := 0
+			if i < len(w.trackers) {
+				w.trackers[i].mu.Lock()
+				hung = w.trackers[i].hung
+				w.trackers[i].mu.Unlock()
+			}
+			if st == announcer.NotContactedYet || (st == announcer.Contacting && hung == 0) {
+				busy = true
+			}
 		}
 		if len(t.incomingHandshakers) > 0 || len(t.outgoingHandshakers) > 0 {
 			busy = true
@@ -1010,6 +1140,19 @@ func (w *VerifWorld) observe() string {
 			fmt.Fprintf(&sb, " p%d=%s", k, strings.Join(ms, ","))
 		}
 	}
+	if len(w.trackers) > 0 {
+		var anns []string
+		for _, tr := range w.trackers {
+			tr.mu.Lock()
+			anns = append(anns, tr.log...)
+			tr.log = nil
+			tr.mu.Unlock()
+		}
+		sort.Strings(anns)
+		if len(anns) > 0 {
+			fmt.Fprintf(&sb, " ann=%s", strings.Join(anns, ","))
+		}
+	}
 	if sl := w.sto.drain(); len(sl) > 0 {
 		fmt.Fprintf(&sb, " sto=%s", strings.Join(sl, ","))
 	}
@@ -1076,6 +1219,33 @@ func (w *VerifWorld) Op(op string) string {
 	case "announce":
 		if !w.call(func() { w.tor.Announce() }) {
 			return "hang"
+		}
+	case "trk":
+		for _, tr := range w.trackers {
+			if m["i"] != "" && verifAtoi(m["i"], -1) != tr.idx {
+				continue
+			}
+			tr.mu.Lock()
+			if m["mode"] != "" {
+				tr.mode = m["mode"]
+			}
+			if m["release"] == "1" {
+				close(tr.release)
+				tr.release = make(chan struct{})
+			}
+			tr.mu.Unlock()
+		}
+	case "waitstop":
+		// the stop announcer gives up after TrackerStopTimeout at the latest
+		deadline := time.Now().Add(3 * time.Second)
+		for time.Now().Before(deadline) {
+			if _, err := w.barrier(); err != nil {
+				return "hang"
+			}
+			if w.t.stoppedEventAnnouncer == nil {
+				break
+			}
+			time.Sleep(5 * time.Millisecond)
 		}
 	case "persist":
 		// the periodic resume writer firing now (Session.updateStatsLoop -> updateStats)
